@@ -91,11 +91,55 @@ Fixpoint subterms (e : expr) : list expr :=
 Definition collision_region (e : expr) : bool :=
   existsb (fun s => match run_data FUEL s with Ok v => has_collision v | _ => false end) (subterms e).
 
-(* codes >= 100: the same, inside the collision region (100 + code) *)
+(* byte members whose integer indices are not contiguous: a byte array has no
+   holes, the builder fills the gap with zero bytes *)
+Definition byte_indices (l : list val) : list Z :=
+  fold_right (fun m acc => match as_pair m with
+                           | Some (VNum (NInt i), n, _) => if name_eqb n n_byte then i :: acc else acc
+                           | _ => acc
+                           end) [] l.
+Definition bytes_gap_list (l : list val) : bool :=
+  match byte_indices l with
+  | [] => false
+  | i :: r => let lo := fold_right Z.min i r in let hi := fold_right Z.max i r in
+              negb (Z.eqb (hi - lo + 1) (Z.of_nat (length (i :: r))))
+  end.
+Fixpoint has_bytes_gap (v : val) : bool :=
+  match v with
+  | VNum _ => false
+  | VTup l => existsb (fun p => has_bytes_gap (snd p)) l
+  | VSet l => bytes_gap_list l || existsb has_bytes_gap l
+  end.
+
+(* a tuple of sugar shape (@, @char|@byte|@item) whose components do not fit the
+   specialised Go tuple types (non-integer index, non-character, non-byte) *)
+Definition illtyped_sugar_tuple (l : list (name * val)) : bool :=
+  match l with
+  | [(n1, k); (n2, x)] =>
+      name_eqb n1 n_at &&
+      ((name_eqb n2 n_char && negb (match k with VNum (NInt _) => valid_char x | _ => false end)) ||
+       (name_eqb n2 n_byte && negb (match k with VNum (NInt _) => valid_byte x | _ => false end)) ||
+       (name_eqb n2 n_item && negb (match k with VNum (NInt _) => true | _ => false end)))
+  | _ => false
+  end.
+Fixpoint has_illtyped_sugar (v : val) : bool :=
+  match v with
+  | VNum _ => false
+  | VTup l => illtyped_sugar_tuple l || existsb (fun p => has_illtyped_sugar (snd p)) l
+  | VSet l => existsb has_illtyped_sugar l
+  end.
+
+Definition region_of (e : expr) : Z :=
+  let vals := fold_right (fun s acc => match run_data FUEL s with Ok v => v :: acc | _ => acc end) [] (subterms e) in
+  if existsb has_collision vals then 1
+  else if existsb has_bytes_gap vals then 2
+  else if existsb has_illtyped_sugar vals then 3
+  else 0.
+
+(* reported code = verdict code + 100 * region (0 = outside every known-finding region) *)
 Definition classify_region (k : ecase) : Z :=
   let c := classify k in
-  if Z.eqb c 0 || Z.eqb c 9 then c
-  else if collision_region (e_expr k) then 100 + c else c.
+  if Z.eqb c 0 || Z.eqb c 9 then c else c + 100 * region_of (e_expr k).
 
 Definition report (l : list ecase) : list (Z * Z) :=
   filter (fun p => negb (Z.eqb (snd p) 0)) (map (fun k => (e_id k, classify_region k)) l).
